@@ -932,7 +932,9 @@ impl World {
             self.conns[conn].blocked = Blocked::WriteSlow;
             return Poll::Pending;
         }
-        if !self.benign && !self.cfg.zero_time_io && self.cfg.p_slow_write > 0 && { let p = self.cfg.p_slow_write; self.s_chance(p, 1000) } {
+        // (the call that follows a slow period goes through: one slow period per write)
+        let just_unblocked = std::mem::replace(&mut self.conns[conn].write_blocked_until, 0) != 0;
+        if !just_unblocked && !self.benign && !self.cfg.zero_time_io && self.cfg.p_slow_write > 0 && { let p = self.cfg.p_slow_write; self.s_chance(p, 1000) } {
             // (twin runs stay below the round-trip bound: a PINGREQ write slower than 5 s ends the
             // connection at once - open finding - and the two runs would no longer be comparable)
             let n = if self.twin_mode { 3 } else { 5 };
